@@ -22,7 +22,7 @@ TAIL = dict(add_expr=0.4, to_expr=0.3, support=0.3, count=0.3, pick=0.3, copy=0.
             manager_roundtrip=0.15, image=0.3, declare=0.4, undeclare=0.3, declare_many=0.15, sizes=0.3,
             to_nx=0.2, dump_dot=0.2, traverse=0.3, fop=0.4, reject=0.4, fork=0.15, probe=0.4, redo=0.4,
             quant=0.4, let=0.4, cube=0.3, find_or_add=0.3, eqcheck=0.3, mdd=0.2, bdd_to_mdd=0.05, dddmp=0.05,
-            pairs=0.2, reorder=0.3, swap=0.4, gc=0.4, nest=0.4)
+            pairs=0.2, reorder=0.3, swap=0.4, gc=0.4, nest=0.4, mk_struct=0.3)
 
 _w = gen._w
 
@@ -52,8 +52,8 @@ PROFILES = {
                            pairs=1, find_or_add=3, redo=10, probe=6),
                 flavors=['raw'], nv=(2, 7), steps=(20, 160)),
     'C07': dict(weights=_w(apply=8, drop=3, gc=2, swap=14, reorder=6,
-                           pairs=4, eqcheck=2),
-                flavors=['raw', 'autoref'], nv=(1, 6), steps=(15, 100),
+                           pairs=4, eqcheck=2, mk_struct=5),
+                flavors=['raw', 'autoref'], nv=(1, 8), steps=(15, 100),
                 sift_tiny=True),
     'C08': dict(weights=_w(apply=8, fop=10, drop=14, dup=5, traverse=8,
                            gc=5, reorder=3, finalize=4, arm_final=4,
@@ -65,7 +65,7 @@ PROFILES = {
     'C09': dict(weights=_w(apply=12, ite=4, fop=4, quant=5, let=10, cube=3,
                            var=6, find_or_add=2, add_expr=4, drop=5, gc=1,
                            swap=0, reorder=0, pairs=0, configure=1, arm=14,
-                           knobs=1, copy=3, load=3, dump=2, image=5, nest=6, support=3, count=1, pick=1, to_expr=1, sizes=1),
+                           knobs=1, copy=3, load=3, dump=2, image=5, nest=6, bdd_to_mdd=2, mk_struct=2, support=3, count=1, pick=1, to_expr=1, sizes=1),
                 flavors=['raw', 'autoref'], nv=(3, 9), steps=(20, 120),
                 dyn=True, m1_rate=0.1),
     'C10': dict(weights=_w(support=8, count=8, pick=10, apply=8, gc=1, swap=3, reorder=1, declare=2, undeclare=3),
